@@ -28,6 +28,7 @@ type Profile struct {
 	Leafs   int  // size of the leaf menu (0 = all)
 	Elifs   bool // else-if arms
 	Hits    bool // conditions may call the recording helper hit(k)
+	NoKey   bool // loops are written without an index variable
 }
 
 // Cx is the syntactic context a block is generated for.
@@ -37,6 +38,7 @@ type Cx struct {
 	Inner string // the innermost int-valued name (loop element, parameter, x)
 	Key   string // the loop index, if bound
 	FnAr  int    // arity of the user function f, 0 = none defined
+	Other string // a second int-valued name in scope (the second parameter)
 }
 
 type G struct {
@@ -53,8 +55,8 @@ func (g *G) Hit() *Expr {
 }
 
 // FnBody: a function body over its (first) parameter: pre · construct · return.
-func (g *G) FnBody(param string, fnAr int) []*Stmt {
-	c := Cx{Fn: true, Inner: param, FnAr: fnAr}
+func (g *G) FnBody(param string, fnAr int, second string) []*Stmt {
+	c := Cx{Fn: true, Inner: param, FnAr: fnAr, Other: second}
 	var out []*Stmt
 	out = append(out, g.pre(c)...)
 	out = append(out, g.Construct(c, 0)...)
@@ -87,6 +89,12 @@ func pick(xs []*Expr, limit int) *Expr {
 // Val: an expression in a value position.
 func (g *G) Val(c Cx) *Expr {
 	m := []*Expr{Var(c.Inner)}
+	if g.P.Faults {
+		m = append(m, Var("u")) // early, so that a small menu keeps one failing operand
+	}
+	if c.Other != "" {
+		m = append(m, Add(Var(c.Inner), Var(c.Other)))
+	}
 	if g.P.Lets {
 		m = append(m, Var("v"))
 	}
@@ -104,16 +112,20 @@ func (g *G) Val(c Cx) *Expr {
 		m = append(m, Var(c.Key))
 	}
 	if g.P.Faults {
-		m = append(m, Var("u"), Idx(Var("xs"), Lit(5)), Add(Var("u"), Lit(1)))
+		m = append(m, Idx(Var("xs"), Lit(5)), Add(Var("u"), Lit(1)))
 	}
 	return pick(m, g.P.Vals)
 }
 
 // Cond: an expression in a condition position.
 func (g *G) Cond(c Cx) *Expr {
-	m := []*Expr{Eq(Var(c.Inner), Var("t")), Var(c.Inner), Lt(Var(c.Inner), Var("t"))}
+	m := []*Expr{Eq(Var(c.Inner), Var("t"))}
 	if g.P.Unknown {
-		m = append(m, Var("u"), Not(Var("u")), Or(Var("u"), Eq(Var(c.Inner), Var("t"))))
+		m = append(m, Var("u"))
+	}
+	m = append(m, Var(c.Inner), Lt(Var(c.Inner), Var("t")))
+	if g.P.Unknown {
+		m = append(m, Not(Var("u")), Or(Var("u"), Eq(Var(c.Inner), Var("t"))))
 	}
 	if g.P.Calls && c.FnAr == 1 {
 		m = append(m, Eq(Call("f", Var(c.Inner)), Var("t")))
@@ -132,12 +144,12 @@ func (g *G) Cond(c Cx) *Expr {
 func (g *G) Iterable(limit int) *Expr {
 	m := []*Expr{
 		Var("xs"),
-		Call("same", Var("xs")),
 		Call("iter", Var("xs")),
+		Call("same", Var("xs")),
+		Arr(Nil(), Var("x")),
 		Arr(Var("x"), Lit(7)),
 		Call("range", Lit(0), Lit(1)),
 		Call("none"),
-		Arr(Nil(), Var("x")),
 	}
 	return pick(m, limit)
 }
@@ -323,7 +335,7 @@ func (g *G) For(c Cx, depth int) *Stmt {
 			val = c.Inner // shadows whatever is innermost
 		}
 	}
-	if vrt.Choice(2) == 1 {
+	if !g.P.NoKey && vrt.Choice(2) == 1 {
 		key = "i"
 		if c.Loop {
 			key = "j"
